@@ -60,6 +60,34 @@ func (latOr) Ident() int           { return 0 }
 func (latOr) Equals(a, b int) bool { return a == b }
 func (latOr) Merge(a, b int) int   { return a | b }
 
+// Order-dual encodings: the identity (bottom) is NOT Go's zero value, the zero value is the top
+// element.  A solver that substitutes the zero value of Fact for Ident() (e.g. for a predecessor it
+// has not visited yet) is invisible with the encodings above and visible with these.
+type latMin1 struct{} // chain2 encoded as 1-e: Merge = min, Ident = 1
+
+func (latMin1) Ident() int           { return 1 }
+func (latMin1) Equals(a, b int) bool { return a == b }
+func (latMin1) Merge(a, b int) int   { return min(a, b) }
+
+type latMin2 struct{} // chain3 encoded as 2-e: Merge = min, Ident = 2
+
+func (latMin2) Ident() int           { return 2 }
+func (latMin2) Equals(a, b int) bool { return a == b }
+func (latMin2) Merge(a, b int) int   { return min(a, b) }
+
+type latAnd struct{} // powerset of 2 encoded as complement bit set ("must" analysis): Merge = and, Ident = 3
+
+func (latAnd) Ident() int           { return 3 }
+func (latAnd) Equals(a, b int) bool { return a == b }
+func (latAnd) Merge(a, b int) int   { return a & b }
+
+func dualInt(k int) codec[int] {
+	return codec[int]{"dual", func(e, _ int) int { return k - e }, func(f int) int { return k - f }}
+}
+func complInt() codec[int] {
+	return codec[int]{"compl", func(e, _ int) int { return ^e & 3 }, func(f int) int { return ^f & 3 }}
+}
+
 type latFlat struct{} // flat constant lattice: 0 bottom, 1..5 constants, 6 top
 
 func (latFlat) Ident() int           { return 0 }
@@ -330,10 +358,16 @@ func replayCase(c *Case, rng *rand.Rand, report func(Mismatch)) int {
 	switch c.Lat {
 	case "chain2", "chain3":
 		n += replayOne[latMax](c, plainInt(), rng, report)
+		if c.Lat == "chain2" {
+			n += replayOne[latMin1](c, dualInt(1), rng, report)
+		} else {
+			n += replayOne[latMin2](c, dualInt(2), rng, report)
+		}
 		n += replayOne[dfa.DenseMapLattice[int, latMax]](c, sliceCodec(func(e int) int { return e }, func(e int) int { return e }), rng, report)
 		n += replayOne[dfa.MapLattice[string, int, latMax]](c, mapCodec(func(e int) int { return e }, func(e int) int { return e }), rng, report)
 	case "pow2":
 		n += replayOne[latOr](c, plainInt(), rng, report)
+		n += replayOne[latAnd](c, complInt(), rng, report)
 		n += replayOne[dfa.DenseMapLattice[int, latOr]](c, sliceCodec(func(e int) int { return e }, func(e int) int { return e }), rng, report)
 		n += replayOne[dfa.MapLattice[string, int, latOr]](c, mapCodec(func(e int) int { return e }, func(e int) int { return e }), rng, report)
 	case "nil5":
